@@ -11,6 +11,8 @@ package main
 
 import (
 	"fmt"
+	"os"
+	"regexp"
 	"runtime/debug"
 	"sort"
 	"strings"
@@ -354,14 +356,31 @@ func (ck *checker) faultFree(h *history, hIdx int) ([]snapshot, shape) {
 
 // faultCase re-runs from a snapshot with one fault, then retries to quiescence and plays the
 // rest of the history.
-func (ck *checker) faultCase(h *history, sh shape, snaps []snapshot, si, k int, out sim.Outcome) {
+func (ck *checker) faultCase(h *history, sh shape, snaps []snapshot, si, k int, out sim.Outcome, early bool, hIdx int) {
 	c := ck.c
 	caseName := fmt.Sprintf("hist/%s/r%d/k%d/%s", h.Name, si, k, out)
+	if early {
+		// the user's next edit lands before the failed reconcile is retried
+		caseName += "/next-edit-first"
+	}
 	if !c.Want(caseName) {
 		return
 	}
 	sn := snaps[si]
-	x := newExecution(h, sn.world.Clone(), sn.st.clone(), sn.m.clone())
+	var x *execution
+	if early {
+		// ONE reconciler lives through the whole history (what it remembers from earlier reconciles is
+		// part of the execution): replay the fault-free prefix instead of restoring the snapshot
+		x = newExecution(h, freshWorld(h, uint64(c.Seed)*100000+uint64(hIdx)), initialRegistry(), newMonitor(kindByName(h.Kind)))
+		for i := 0; i < sn.step; i++ {
+			x.applyStep(i)
+			x.settle(i, 0, nil, nil)
+		}
+		x.applyStep(sn.step)
+		x.notes = append(x.notes, fmt.Sprintf("(steps 0-%d replayed fault-free by the same reconciler)", sn.step))
+	} else {
+		x = newExecution(h, sn.world.Clone(), sn.st.clone(), sn.m.clone())
+	}
 	from := x.w.LogLen()
 	r := x.reconcile(k, out)
 	hit := false
@@ -371,10 +390,18 @@ func (ck *checker) faultCase(h *history, sh shape, snaps []snapshot, si, k int, 
 		}
 	}
 	x.notes = append(x.notes, fmt.Sprintf("^ faulty reconcile (step %d, reconcile %d of the step): call %d -> %s, hit=%v", sn.step, sn.iter, k, out, hit))
-	x.settle(sn.step, 0, nil, nil)
+	if !early {
+		x.settle(sn.step, 0, nil, nil)
+	}
 	x.runFrom(sn.step + 1)
+	if early {
+		c.Count("fault_executions_next_edit_first", 1)
+		if os.Getenv("DBG") != "" && out == sim.ServerError {
+			fmt.Fprintln(os.Stderr, "DBG", caseName, "\n   "+strings.Join(x.notes, "\n   "))
+		}
+	}
 
-	c.Eval(fmt.Sprintf("%s|r%d|k%d|%s", h.Name, si, k, out), sh.nontrivial() && hit)
+	c.Eval(fmt.Sprintf("%s|r%d|k%d|%s|%v", h.Name, si, k, out, early), sh.nontrivial() && hit)
 	c.Count("fault_executions", 1)
 	if hit {
 		c.Count("faults_hit_"+out.String(), 1)
@@ -396,15 +423,17 @@ func (ck *checker) faultCase(h *history, sh shape, snaps []snapshot, si, k int, 
 	}
 }
 
+var revNameRe = regexp.MustCompile(`Revision//([a-z0-9.-]+)`)
+
 // staleListCase re-runs from the snapshot taken right after a step's user edit (before its first
 // reconcile) with the reconciler's revision LIST served from the informer store as it was at an
 // earlier snapshot (Gets are current: the informer catches up in between), then settles with a
 // current cache and plays the rest of the history. Judged: two revisions Active at once through a
-// write to an EXISTING revision - the reconciler wrote a stale copy over the current object (the
-// unchanged tree pins such writes to the version it listed, so the API server refuses them).
-// Counted only: every other alarm of the monitor, and two Active revisions through the CREATE of
-// a revision whose namesakes the stale list did not show (the unchanged tree does that when its
-// list misses a whole earlier reconcile) - C14 says nothing about caches, and what a reconcile
+// write to a revision the stale list SHOWED - the reconciler wrote its stale copy over the current
+// object (the unchanged tree pins such writes to the version it listed, so the API server refuses
+// them). Counted only: every other alarm of the monitor, and two Active revisions through the
+// creation or the patch of a revision the stale list did not show at all (the unchanged tree does
+// that when its list misses a whole earlier reconcile) - C14 says nothing about caches, and what a reconcile
 // makes of a list that lacks revisions altogether is outside what it states.
 func (ck *checker) staleListCase(h *history, snaps []snapshot, si, sj int) {
 	c := ck.c
@@ -416,6 +445,10 @@ func (ck *checker) staleListCase(h *history, snaps []snapshot, si, sj int) {
 	x := newExecution(h, sn.world.Clone(), sn.st.clone(), sn.m.clone())
 	asOf := snaps[sj].world.RV()
 	gk := x.kind.revGK()
+	listed := map[string]bool{} // the revisions the stale list shows
+	for _, o := range snaps[sj].world.ListObjs(gk) {
+		listed[sim.Str(o, "metadata", "name")] = true
+	}
 	x.env.lister = x.w.LaggingClient(actorPkgmgr, func(g schema.GroupKind) (int64, bool) { return -asOf, g == gk })
 	r := x.reconcile(-1, sim.OK)
 	x.env.lister = nil
@@ -426,8 +459,13 @@ func (ck *checker) staleListCase(h *history, snaps []snapshot, si, sj int) {
 	c.Count("stale_list_executions", 1)
 	var keep []violation
 	for _, v := range x.m.viol {
-		if strings.HasPrefix(v.key, "O1-two-active-revisions") && strings.Contains(v.what, " create ") {
-			c.Count("stale_list_two_active_by_create_observed_only", 1)
+		written := ""
+		if m := revNameRe.FindStringSubmatch(v.what); m != nil {
+			written = m[1]
+		}
+		if strings.HasPrefix(v.key, "O1-two-active-revisions") && (strings.Contains(v.what, " create ") || !listed[written]) {
+			// the revision written was not in the stale list at all: the reconciler had no copy of it
+			c.Count("stale_list_two_active_by_write_to_unlisted_revision_observed_only", 1)
 		} else if strings.HasPrefix(v.key, "O1-two-active-revisions") {
 			v.key += ":stale-copy-written-over-existing-revision"
 			keep = append(keep, v)
@@ -455,6 +493,7 @@ func main() {
 	c.Rule += " Histories with finalizers: the revision controller holds its finalizer on every revision; the user deletes the current / oldest revision (it lingers Terminating) and the finalizer is released by a later step."
 	c.Rule += " " + "A history with revisionHistoryLimit = max int64."
 	c.Rule += " " + "Digest stability: the real PackageRevisioner over the real registry fetcher against an in-process registry (plain image, OCI index, Docker manifest list under an unmoved tag) whose manifest HEAD answers ok / 429 / 404 / 500 / 405 / without digest header: every successful resolution names the revision of the tag's digest."
+	c.Rule += " " + "Base histories: the first reconcile of a step fails at each call (500, applied-but-504, 409) and the next edit lands before any retry."
 	c.Rule += " " + "Stale revision lists: the first reconcile after each edit of a base history lists revisions as of one or two edits earlier (Gets current); judged: two Active revisions through a write to an existing revision."
 	c.Assumptions = []string{
 		"sim implements the apiserver rules of DESIGN.md 2.2; reads are linearizable (no stale informer cache)",
@@ -589,8 +628,15 @@ func main() {
 						ps = ps[:u.sample]
 					}
 					for _, p := range ps {
-						if err := kit.Try(func() { ck.faultCase(u.h, u.sh, u.snaps, u.si, p.k, p.out) }); err != nil {
+						if err := kit.Try(func() { ck.faultCase(u.h, u.sh, u.snaps, u.si, p.k, p.out, false, u.rngIdx/1000) }); err != nil {
 							c.Violate("harness-panic", fmt.Sprintf("hist/%s/r%d/k%d/%s", u.h.Name, u.si, p.k, p.out), err.Error(), map[string]any{"history": u.h})
+						}
+						// base histories: a failed first reconcile of a step that is followed by the next
+						// edit at once (no retry in between), for the error outcomes
+						if u.sample == 0 && u.snaps[u.si].iter == 0 && u.snaps[u.si].step+1 < len(u.h.Steps) && (p.out == sim.ServerError || p.out == sim.ErrorAfter || p.out == sim.Conflict) {
+							if err := kit.Try(func() { ck.faultCase(u.h, u.sh, u.snaps, u.si, p.k, p.out, true, u.rngIdx/1000) }); err != nil {
+								c.Violate("harness-panic", fmt.Sprintf("hist/%s/r%d/k%d/%s/next-edit-first", u.h.Name, u.si, p.k, p.out), err.Error(), map[string]any{"history": u.h})
+							}
 						}
 					}
 				}
